@@ -432,6 +432,26 @@ static void scen_c04(int histories, int rounds) {
               cmd_begin(&b, ST_SESSIONS, CC_EvictControl); b_u32(&b, RH_OWNER); b_u32(&b, th); auth_pw(&b, ownerAuth, 3); b_u32(&b, 0x81000010u);
               if (run(&b).rc == 0 && pknl) { pkh = 0x81000010u; tr_begin("ent handle=%u", pkh); trhex("name", pkname, pknl); trhex("auth", (uint8_t *)"k1", 2); tr_end(); }
               cmd_begin(&b, ST_NO_SESSIONS, CC_FlushContext); b_u32(&b, th); run(&b); } }
+        /* a child key under a storage parent: its authValue is changed by ObjectChangeAuth during the history */
+        uint32_t parh = 0, ch = 0; uint8_t parname[34], cname[34], cpub[128]; int parnl = 0, cnl = 0, cpubl = 0; char cauth[8] = "c1";
+        { Buf t = {0}; tmpl_ecc_sign(&t, 1, NULL, 0);
+          cmd_begin(&b, ST_SESSIONS, CC_CreatePrimary); b_u32(&b, RH_OWNER); auth_pw(&b, ownerAuth, 3); b_u16(&b, 4); b_u16(&b, 0); b_u16(&b, 0); b_2b(&b, t.p, t.n); b_u16(&b, 0); b_u32(&b, 0);
+          Rsp r = run(&b);
+          if (r.rc == 0) { parh = g32(r.p + 10); Rd rd = rsp_params(&r, 1); uint16_t l; r_2b(&rd, &l); r_2b(&rd, &l); r_2b(&rd, &l); r_u16(&rd); r_u32(&rd); r_2b(&rd, &l); const uint8_t *nm = r_2b(&rd, &l);
+              if (!rd.err && l <= 34) { memcpy(parname, nm, l); parnl = l; } else parh = 0;
+              /* three object slots: the parent lives as a persistent object and is loaded only while a command uses it */
+              if (parh) { uint32_t th = parh; cmd_begin(&b, ST_SESSIONS, CC_EvictControl); b_u32(&b, RH_OWNER); b_u32(&b, th); auth_pw(&b, ownerAuth, 3); b_u32(&b, 0x81000011u);
+                  parh = run(&b).rc == 0 ? 0x81000011u : 0; cmd_begin(&b, ST_NO_SESSIONS, CC_FlushContext); b_u32(&b, th); run(&b); } }
+          if (parh) { b_reset(&t); b_u16(&t, ALG_KEYEDHASH); b_u16(&t, ALG_SHA256); b_u32(&t, 0x00040472u); b_u16(&t, 0); b_u16(&t, ALG_HMAC); b_u16(&t, ALG_SHA256); b_u16(&t, 0);
+              cmd_begin(&b, ST_SESSIONS, CC_Create); b_u32(&b, parh); auth_pw(&b, "", 0); b_u16(&b, 4 + 2); b_2b(&b, cauth, 2); b_u16(&b, 0); b_2b(&b, t.p, t.n); b_u16(&b, 0); b_u32(&b, 0);
+              r = run(&b);
+              if (r.rc == 0) { Rd rd = rsp_params(&r, 0); uint16_t prl, pul; const uint8_t *p1 = r_2b(&rd, &prl); const uint8_t *p2 = r_2b(&rd, &pul); uint8_t priv[300];
+                  if (!rd.err && prl <= 300 && pul <= 128) { memcpy(priv, p1, prl); memcpy(cpub, p2, pul); cpubl = pul;
+                      cmd_begin(&b, ST_SESSIONS, CC_Load); b_u32(&b, parh); auth_pw(&b, "", 0); b_2b(&b, priv, prl); b_2b(&b, cpub, cpubl); r = run(&b);
+                      if (r.rc == 0) { ch = g32(r.p + 10); Rd r2 = rsp_params(&r, 1); uint16_t l; const uint8_t *nm = r_2b(&r2, &l); if (!r2.err && l <= 34) { memcpy(cname, nm, l); cnl = l; } else ch = 0; } } } }
+          b_free(&t);
+          if (parh) { tr_begin("ent handle=%u", parh); trhex("name", parname, parnl); trhex("auth", NULL, 0); tr_end(); }
+          if (ch) { tr_begin("ent handle=%u", ch); trhex("name", cname, cnl); trhex("auth", (uint8_t *)cauth, 2); tr_end(); } }
         uint8_t pcrname[4]; be32buf(pcrname, 16);
         tr_begin("ent handle=%u", 16); trhex("name", pcrname, 4); trhex("auth", NULL, 0); tr_end();
         HSess su, sb; int have_su = c04_start(&b, &su, RH_NULL, "", 0) == 0;     /* unbound */
@@ -440,7 +460,7 @@ static void scen_c04(int histories, int rounds) {
         uint8_t nvdata[16]; memcpy(nvdata, "0123456789abcdef", 16);
         for (int i = 0; i < rounds && have_su && have_sb; i++) {
             int corrupt = chance(45) ? K_NONE : 1 + rnd(K_NCOUNT - 1);
-            switch (rnd(10)) {
+            switch (rnd(12)) {
             case 0: { /* NV_Read with the index authValue through the unbound HMAC session */
                 uint8_t p[4] = {0, 8, 0, (uint8_t)rnd(8)};
                 c04_authcmd(&b, &su, CC_NV_Read, idx, nvname, nvnl, idx, nvname, nvnl, p, 4, "nv1", 0, corrupt, "nvread-unbound"); break; }
@@ -469,6 +489,31 @@ static void scen_c04(int histories, int rounds) {
                 uint8_t p[4 + 2 + 32]; p[0] = 0; p[1] = 0; p[2] = 0; p[3] = 1; p[4] = 0; p[5] = 0x0B; for (int q = 0; q < 32; q++) p[6 + q] = rnd(256);
                 if (corrupt == K_AUTHVAL && sb_bound_valid) corrupt = K_HMAC;
                 c04_authcmd(&b, &sb, CC_PCR_Extend, 16, pcrname, 4, 0, NULL, 0, p, 38, "", 0, corrupt, "pcr-extend"); break; }
+            case 10: { /* the child key with its current authValue */
+                if (!ch) break;
+                uint8_t p[2 + 5 + 2] = {0, 5, 'c', 'h', 'i', 'l', 'd', 0, 0x0B};
+                c04_authcmd(&b, &su, CC_HMAC, ch, cname, cnl, 0, NULL, 0, p, 9, cauth, 0, corrupt, "ckey-hmac"); break; }
+            case 11: { /* ObjectChangeAuth (ADMIN role, satisfied by the authValue): the new private area, loaded, takes the new value only */
+                if (!ch || chance(50)) break;
+                char na[4]; na[0] = 'c'; na[1] = 'a' + rnd(20); na[2] = '0' + rnd(10); na[3] = 0;
+                uint8_t p[2 + 3]; p[0] = 0; p[1] = 3; memcpy(p + 2, na, 3);
+                Rsp r = c04_authcmd(&b, &su, CC_ObjectChangeAuth, ch, cname, cnl, parh, parname, parnl, p, 5, cauth, 0, corrupt, "objchangeauth");
+                if (r.rc != 0 || r.tag != ST_SESSIONS) break;
+                uint16_t prl = g16(r.p + 14); uint8_t priv[300]; if (prl > 300 || 16u + prl > r.len) break; memcpy(priv, r.p + 16, prl);
+                /* the object that stays loaded keeps its old value (three object slots: it has to go before the new one is loaded) */
+                { cmd_begin(&b, ST_SESSIONS, CC_HMAC); b_u32(&b, ch); auth_pw(&b, cauth, strlen(cauth)); b_2b(&b, "x", 1); b_u16(&b, ALG_SHA256); Rsp hr = run(&b);
+                  tr_begin("auth what=objchange-old-object-old-value corrupt=0 sh=0 rc=%u", hr.rc); trhex("req", b.p, b.n); trhex("rsp", hr.p, hr.len); tr_end(); }
+                cmd_begin(&b, ST_NO_SESSIONS, CC_FlushContext); b_u32(&b, ch); run(&b); ch = 0;
+                cmd_begin(&b, ST_SESSIONS, CC_Load); b_u32(&b, parh); auth_pw(&b, "", 0); b_2b(&b, priv, prl); b_2b(&b, cpub, cpubl); Rsp lr = run(&b);
+                tr("objchange load_rc=%u", lr.rc);
+                if (lr.rc != 0) break;
+                uint32_t nh = g32(lr.p + 10);
+                tr_begin("ent handle=%u", nh); trhex("name", cname, cnl); trhex("auth", (uint8_t *)na, 3); tr_end();
+                /* the new one refuses the old value and takes the new one */
+                for (int which = 1; which < 3; which++) { const char *pw = which == 1 ? cauth : na;
+                    cmd_begin(&b, ST_SESSIONS, CC_HMAC); b_u32(&b, nh); auth_pw(&b, pw, strlen(pw)); b_2b(&b, "x", 1); b_u16(&b, ALG_SHA256); Rsp hr = run(&b);
+                    tr_begin("auth what=objchange-%s corrupt=%d sh=0 rc=%u", which == 1 ? "new-object-old-value" : "new-object-new-value", which == 1 ? K_AUTHVAL : 0, hr.rc); trhex("req", b.p, b.n); trhex("rsp", hr.p, hr.len); tr_end(); }
+                ch = nh; strcpy(cauth, na); break; }
             case 5: { /* ownerAuth changes (password session); the bound session is no longer bound to the *current* owner auth */
                 if (chance(85)) break;
                 char na[4]; na[0] = 'o'; na[1] = 'a' + rnd(20); na[2] = '0' + rnd(10); na[3] = 0;
@@ -495,6 +540,7 @@ static void scen_c04(int histories, int rounds) {
                 break; }
             }
         }
+        if (ch) { cmd_begin(&b, ST_NO_SESSIONS, CC_FlushContext); b_u32(&b, ch); run(&b); }
         cmd_begin(&b, ST_NO_SESSIONS, CC_FlushContext); b_u32(&b, su.h); run(&b); cmd_begin(&b, ST_NO_SESSIONS, CC_FlushContext); b_u32(&b, sb.h); run(&b);
         tr("sflush h=%u", su.h); tr("sflush h=%u", sb.h);
         /* phase 2: sessions with parameter encryption — XOR and AES-CFB; unsalted, salted (ECDH against an ECC key in the TPM), bound+salted */
